@@ -17,6 +17,7 @@ EXTENDS GWForm, Sequences, FiniteSets, TLC, Json, IOUtils
 
 Claims == JsonDeserialize(IOEnv.CLAIMS_FILE)   \* sequence of [kind, n, s, v]
 NMax == atoi(IOEnv.OPT_NMAX)
+SMax == atoi(IOEnv.OPT_SMAX)                   \* rows are built for s <= SMax only
 
 VARIABLES gw, bin, mix
 vars == <<gw, bin, mix>>
@@ -41,18 +42,28 @@ MixEntry(n, s, tab) ==
 Init == gw = <<>> /\ bin = <<>> /\ mix = <<>>
 Next == LET n == Len(bin) + 1 IN
         /\ n <= NMax
-        /\ gw' = Append(gw, [s \in 0..(n - 1) |-> GW(n, s)])
-        /\ bin' = Append(bin, [s \in 0..(n - 1) |-> BinEntry(n, s, bin)])
-        /\ mix' = Append(mix, [s \in 0..(n - 1) |-> MixEntry(n, s, mix)])
+        /\ gw' = Append(gw, [s \in 0..GMin(n - 1, SMax) |-> GW(n, s)])
+        /\ bin' = Append(bin, [s \in 0..GMin(n - 1, SMax) |-> BinEntry(n, s, bin)])
+        /\ mix' = Append(mix, [s \in 0..GMin(n - 1, SMax) |-> MixEntry(n, s, mix)])
 Spec == Init /\ [][Next]_vars
 
 ClosedFormIsRecurrence == \A n \in 1..Len(bin) : gw[n] = bin[n]
-MixedNoWorse == \A n \in 1..Len(bin) : \A s \in 0..(n - 1) : mix[n][s] <= bin[n][s]
+MixedNoWorse == \A n \in 1..Len(bin) : \A s \in DOMAIN bin[n] : mix[n][s] <= bin[n][s]
 
 Table(kind) == IF kind = "bin" THEN gw ELSE mix
+Extra(n, s) == bin[n][Cl(n, s)] - n          \* recomputation steps of the binomial optimum
+
+(* "adv": the planner's choice v of how far to advance before the next checkpoint, for n  *)
+(* steps and s units, is consistent with optimality iff it satisfies the Bellman equation *)
+(*   Extra(n, s) = v + Extra(v, s) + Extra(n - v, s - 1)       (GW2000, eq. (2))          *)
+AdvOK(k) == /\ k.v >= 1 /\ k.v <= k.n - 1
+            /\ IF Cl(k.n, k.s) = 1 THEN k.v = k.n - 1
+               ELSE Extra(k.n, k.s) = k.v + Extra(k.v, Cl(k.n, k.s)) + Extra(k.n - k.v, Cl(k.n, k.s) - 1)
+
 BadClaims == {c \in 1..Len(Claims) :
                 LET k == Claims[c] IN
-                k.n <= NMax /\ k.n >= 1 /\ (k.n = 1 \/ k.s >= 1)
-                /\ Table(k.kind)[k.n][Cl(k.n, k.s)] # k.v}
+                k.n <= NMax /\ k.n >= 1 /\ (k.n = 1 \/ k.s >= 1) /\ Cl(k.n, k.s) <= SMax
+                /\ IF k.kind = "adv" THEN (k.n >= 2 /\ ~AdvOK(k))
+                   ELSE Table(k.kind)[k.n][Cl(k.n, k.s)] # k.v}
 Verdict == Len(bin) = NMax => PrintT(<<"@V", BadClaims, "V@">>)
 =============================================================================
